@@ -234,7 +234,7 @@ func emitAllTreeCode(repo string) (string, error) {
 			"/-- `t.matchNextSegment(path, next, params, header)`, inherited from the embedded baseTree: the search below this node -/\n" +
 			"def selfNext (t : matchAllTree) (path : Bytes) (next : Int) (ps : List (Bytes × Bytes)) (_ : Lib.Header) : Lib.Leaf × Bool × List (Bytes × Bytes) :=\n" +
 			"  Lib.resOf ps (Flamego.matchNextIdx E hok t.baseTree.subtrees t.baseTree.leaves path next.toNat ps)\n",
-		skip: map[string]string{"getBinds": "a constant"},
+		skip: map[string]string{},
 	})
 }
 
